@@ -229,6 +229,12 @@ def real_cases(ctx, rng, nseeds):
                 else:
                     cases.append({"id": "pp%d.%d" % (si, pi), "kind": "eq", "a": T(ptr[1].xpub()) if ptr[0] == "ok" else [0], "b": T(step.xpub()) if ok else [1],
                                   "what": "public-traverse-differs-from-private:%s" % m0})
+        # a hardened index reaches the public side as a plain number: still a hardened derivation, still refused
+        for hj, hp in enumerate(["m/2147483648", "m/0/4294967295", "M/7/%d/1" % (2 ** 31 + 44), "m/%d" % rng.randrange(2 ** 31, 2 ** 32)]):
+            got = outcome(root.pub.traverse, hp)
+            cases.append({"id": "ph%d.%d" % (si, hj), "kind": "eq", "a": [got[0] == "ok"], "b": [False], "what": "public-traverse-accepts-hardened-index-written-as-a-number"})
+        got = outcome(root.pub.child, 2 ** 31)
+        cases.append({"id": "phc%d" % si, "kind": "eq", "a": [got[0] == "ok"], "b": [False], "what": "public-child-accepts-hardened-index"})
         # blinding: the blinded child xpub is the key at the combined path from the root
         sp = "m/" + "/".join(str(rng.choice([0, 1, 2 ** 31 - 1, rng.randrange(2 ** 31)])) for _ in range(rng.choice([1, 2, 4])))
         start_path = rng.choice(["m/48h/0h/0h/2h", "m/45'/0", "m"])
